@@ -1580,7 +1580,7 @@ func (ps *pkgState) removeUnused(unk map[string]bool, res *Result) {
 		}
 		ps.check()
 		// imports that became unused
-		for try := 0; try < 3 && len(ps.errs) > 0; try++ {
+		for try := 0; try < 24 && len(ps.errs) > 0; try++ {
 			fixed := false
 			for _, e := range ps.errs {
 				if !strings.Contains(e.Msg, "imported and not used") && !strings.Contains(e.Msg, "imported as") {
